@@ -13,10 +13,14 @@ CLAIMED = {
                 "RangeLex, RangeTokens, composed in RangeParse); C01_validate_iff proves that Range.validate then accepts exactly the members of some item, "
                 "and C01_lower/upper_* that the overall limits are the attained min/max or absent when an item is open. The model is tied to /repo by running "
                 "model, declarative spec and the real cutplace.ranges.Range on the same rendered descriptions (bounded-exhaustive 1-2 item sweep plus a "
-                "spelling-complete grammar stream); the 4300-digit limit of CPython's int(), which the theorem carries as hypothesis, is probed on both sides.",
+                "spelling-complete grammar stream); the 4300-digit limit of CPython's int(), which the theorem carries as hypothesis, is probed on both sides. "
+                "Decimal ranges (C01_decimal_*, Proofs/DecRange.lean, core Rat): the model's Decimal comparison (Dec.le?) is the order of the rational "
+                "numbers the literals denote, DecimalRange.validate accepts exactly the values inside some item, is defined for every finite value, and the "
+                "overall limits are the minimum / maximum in that order or absent when an item is open; tied to cutplace.ranges.DecimalRange by a "
+                "correspondence stream of rendered decimal descriptions and values (model vs rational spec vs implementation).",
         "note": "Trusted: Lean kernel; model faithfulness as sampled by the correspondence (the tokenizer / int() / str methods are CPython behaviour "
-                "transcribed by hand). DecimalRange has the same token loop in the model and is covered by correspondence and by Props/C02's Decimal "
-                "theorems, not by a separate parse theorem.",
+                "transcribed by hand). For DecimalRange the theorems start from the stored items (comparison, membership, limits); the text -> items parse "
+                "has a totality theorem (Props/C10) but no parse = denote theorem, that step is covered by correspondence.",
         "technique": "Lean 4 proof (parse o render = denote through lexer and token loop; membership; limits) over hand-written model + differential correspondence (impl vs model vs spec)",
         "design_ref": "DESIGN.md §6 C01",
     },
@@ -166,11 +170,13 @@ CLAIMED = {
                 "writes a text of nines and zeros and parses it again - yields a range accepting exactly the integers whose decimal text has an allowed "
                 "length (Proofs/LengthRange.lean: digit-count arithmetic, text equality with the rendered description, disjointness by a semantic argument, "
                 "then C01's parse theorem); Choice / Constant / Text by exact membership, Decimal separator handling (decimal separator -> point, "
-                "thousands separators only before it, one decimal separator). DateTime (strptime incl. regex alternation order, calendar, year pivot), "
-                "Pattern (fnmatch.translate) and RegEx (subset) are modelled and checked by correspondence: per-type rule grammars, member and mutated "
+                "thousands separators only before it, one decimal separator). DateTime: C02_datetime_sound (whatever strptime's model accepts for a "
+                "translated layout is a date of the calendar with in-range clock fields, the two-digit year pivoted at 69), C02_datetime_complete (every "
+                "civil date / time rendered in the layout - two-digit fields, any literal text without blanks - is accepted and returned unchanged) and "
+                "C02_datetime_match_exact. Pattern (fnmatch.translate) and RegEx (subset) are modelled and checked by correspondence: per-type rule grammars, member and mutated "
                 "cells, all length declarations over 0..3 x all integers of <= 4 characters (quick; 0..5 x <= 6 characters thorough), 4 formats.",
-        "note": "Trusted: Lean kernel; model faithfulness (7.9M cell evaluations in the thorough tier without a disagreement); acceptance theorems for DateTime, "
-                "Pattern and RegEx are not proved (correspondence only).",
+        "note": "Trusted: Lean kernel; model faithfulness (7.9M cell evaluations in the thorough tier without a disagreement); the layout translation "
+                "(YYYY -> %Y ...) and acceptance theorems for Pattern and RegEx are not proved (correspondence only).",
         "technique": "Lean 4 proof (digits, range membership, length-derived ranges through the range parser, separator translation) + exhaustive/generated differential correspondence",
         "design_ref": "DESIGN.md §6 C02",
     },
@@ -187,17 +193,24 @@ CLAIMED = {
         "design_ref": "DESIGN.md §6 C09",
     },
     "C10": {
-        "category": "fault_enumeration",
-        "text": "Fault enumeration tied to the Lean model, with a partial proof. Every cell of every row kind of four base CIDs (all formats, all 8 field types, both "
+        "category": "proof",
+        "text": "Lean 4 totality theorems over the model of Cid.read + fault enumeration tying the model's exception classes to the code. Every cell of every row kind of four base CIDs (all formats, all 8 field types, both "
                 "checks, all properties) is replaced in turn by each of ~80 hostile values; every data cell likewise; text containers with undecodable bytes, "
                 "unterminated quotes, NUL bytes; the command line on the hostile CIDs. The class of whatever escapes must be InterfaceError/DataError, and it is "
                 "compared with the exception class the Lean model of Cid.read predicts (every assert/int()/chr()/Decimal()/tokenizer failure is a branch of the "
-                "model). Lean theorems (Props/C10.lean) prove totality for the parts with small error sets (field names, integer properties, row dispatch, "
-                "ordering errors) and that the command line never exits 4 on modelled outcomes.",
-        "note": "Partial: a theorem that *every* path of Cid.read only yields cutplace errors is not proved; the claim for ranges, field declarations and checks "
-                "rests on the enumeration + model tie. Exception sources outside the model (MemoryError, library bugs) can only be met by the enumeration. "
+                "model). Lean theorems (Props/C10.lean): C10_cid_read_total - for every list of rows (any number, any cells, any order) the model of Cid.read "
+                "ends in a CID, an InterfaceError, the recorded OverflowError finding, or outside the modelled fragment: no StopIteration (token lists "
+                "always end in the end marker), no ValueError from chr() (code points are never negative), no InvalidOperation (NUMBER tokens are finite "
+                "decimals), no AssertionError, re.error, UnicodeDecodeError or TokenError, through ranges, decimal ranges, all 8 field types, both check "
+                "types and every data-format property (Proofs/RangeTotal, DecimalTotal, DeclareTotal, CidTotal); C10_field_value_total - no cell text "
+                "can make a field of a CID that was read raise anything but a rejection; plus field names, integer properties, row dispatch, ordering "
+                "errors, and that the command line never exits 4 on modelled outcomes. Also enumerated: end-of-data expressions through 5 APIs, Excel date "
+                "cells xlrd refuses, byte-level damage of xlsx/ods archives, ODS declared encodings.",
+        "note": "The totality theorems are about the model; that the model predicts the class the real code raises rests on the enumeration "
+                "(class-by-class comparison for every hostile cell). Exception sources outside the model (MemoryError, library bugs, the readers of "
+                "data files) can only be met by the enumeration. "
                 "ODS/XLSX container corruption is covered under C15/C16. One open finding (absurdly large Integer length -> OverflowError).",
-        "technique": "exhaustive hostile-value enumeration with Lean-model exception-class prediction + partial Lean 4 totality proofs",
+        "technique": "Lean 4 totality proof over the model of Cid.read and field validation + exhaustive hostile-value enumeration with Lean-model exception-class prediction",
         "design_ref": "DESIGN.md §6 C10",
     },
     "C15": {
